@@ -183,6 +183,20 @@ impl<'r> BookGen<'r> {
         }
     }
 
+    /// Declares one commodity's `format` again with a different number of decimals: from here on the
+    /// latest declaration is the commodity's declared precision.
+    pub fn redeclare(&mut self) -> bool {
+        let c = self.rng.pick_str(COMMODITIES).to_string();
+        let old = self.state.precision.get(&c).copied();
+        let mut p = self.rng.below(5) as u32;
+        if Some(p) == old {
+            p = (p + 2) % 5;
+        }
+        self.ledger.entries.push(Entry::Commodity { name: c.clone(), precision: Some(p), aliases: vec![] });
+        self.state.precision.insert(c, p);
+        old.is_some()
+    }
+
     fn value(&mut self, commodity: &str) -> Dec {
         let (m, s) = *self.rng.pick(VALUES);
         let mut d = Dec::new(m, s);
@@ -312,6 +326,7 @@ impl<'r> BookGen<'r> {
         ps.push(Post::omitted("Equity:Scratch"));
         let t = Txn {
             date: NaiveDate::from_ymd_opt(2024, 1, 1).unwrap(),
+            effective: None,
             payee: "scratch".into(),
             posts: ps,
         };
@@ -444,6 +459,7 @@ impl<'r> BookGen<'r> {
         let mut scratch = self.state.clone();
         let t = Txn {
             date: NaiveDate::from_ymd_opt(2024, 1, 1).unwrap(),
+            effective: None,
             payee: "scratch".into(),
             posts: posts.clone(),
         };
@@ -540,8 +556,11 @@ impl<'r> BookGen<'r> {
             self.huge = false;
             let date = self.next_date();
             self.txn_counter += 1;
+            // one header in eight carries an effective date some days away from the transaction date
+            let effective = if self.rng.chance(1, 8) { Some(date + chrono::Duration::days(self.rng.range(-15, 25))) } else { None };
             let t = Txn {
                 date,
+                effective,
                 payee: format!("TXN{}Q", self.txn_counter),
                 posts,
             };
@@ -580,6 +599,9 @@ pub fn gen_case(rng: &mut Rng, profile: Profile) -> (Ledger, Vec<(usize, Outcome
         for x in t {
             labels.push(format!("history:{}", x));
         }
+    }
+    if !g.stopped && g.rng.chance(1, 6) {
+        labels.push(if g.redeclare() { "precision-redeclared".to_string() } else { "precision-declared-late".to_string() });
     }
     if !g.stopped {
         let (l, t) = g.push_txn(false);
